@@ -233,14 +233,24 @@ def run(tier):
         b = (b, ()) if isinstance(b, int) else b
         return b[0] - a[0] == 4 and a[1] == b[1]
 
+    def low16_le_of_fcnt(v):
+        """the two low-order bytes of self.fcnt, little endian: (fcnt as u16).to_le_bytes() or fcnt.to_le_bytes()[..2]"""
+        v = peel(v)
+        if is_call(v, 'to_le_bytes'):
+            a = peel(v[2][0])
+            return a[0] == 'cast' and a[1] == 'u16' and self_field(a[2], sp, 'fcnt')
+        ic = index_call(v)
+        if ic is not None and is_call(ic[0], 'to_le_bytes') and self_field(peel(ic[0][2][0]), sp, 'fcnt'):
+            return ic[1][0] == ('const', 0) and ic[1][1] == ('const', 2)
+        return False
+
     def is_port_cursor(o):
         return isinstance(o, tuple) and o[0] == 0 and len(o[1]) == 1 and o[1][0][1] == 1 and o[1][0][0].startswith('φ_')
     want = [
         ('MHDR', lambda x: x[0] == 'byte' and x[1] == 0 and is_call(x[3], 'DataFrame::mhdr') and peel(x[3][2][0]) == ('param', sp)),
         ('DevAddr', lambda x: x[0] == 'range' and (x[1], x[2]) == (1, 5) and is_call(x[3], 'DevAddr::as_wire_bytes') and self_field(x[3][2][0], sp, 'dev_addr')),
         ('FCtrl', lambda x: x[0] == 'byte' and x[1] == 5 and is_call(x[3], 'DataFrame::fctrl') and peel(x[3][2][0]) == ('param', sp)),
-        ('FCnt', lambda x: x[0] == 'range' and (x[1], x[2]) == (6, 8) and is_call(x[3], 'to_le_bytes') and peel(x[3][2][0])[0] == 'cast' and peel(x[3][2][0])[1] == 'u16'
-         and self_field(peel(x[3][2][0])[2], sp, 'fcnt')),
+        ('FCnt', lambda x: x[0] == 'range' and (x[1], x[2]) == (6, 8) and low16_le_of_fcnt(x[3])),
         ('FOpts', lambda x: x[0] == 'range' and x[1] == 8 and x[2] == (8, (fl,)) and self_field(x[3], sp, 'f_opts')),
         ('FPort', lambda x: x[0] == 'byte' and is_port_cursor(x[1])),
         ('FRMPayload', lambda x: x[0] == 'range' and is_port_cursor(x[1]) and isinstance(x[2], tuple) and len(x[2][1]) == 2),
